@@ -143,6 +143,12 @@ def source(spec):
           bs = str(b["const"]) if b.get("w") is None else "Bits%d(%d)" % (b["w"], b["const"])
         else:
           bs = r_path(b)
+          nest = it.get("bnest")
+          if nest and b[-1][0] == "s":
+            # slice of a slice: s.x[olo:ohi][lo-olo:hi-olo] names the same bits as s.x[lo:hi]
+            olo, ohi = nest
+            lo, hi = b[-1][1], b[-1][2]
+            bs = "%s[%d:%d][%d:%d]" % (r_path(b[:-1]), olo, ohi, lo - olo, hi - olo)
         if it.get("flip") and not isinstance(b, dict):
           a, bs = bs, a
         if it.get("op", "connect") == "//=" and not it.get("flip"):
@@ -178,12 +184,35 @@ def source(spec):
   return text
 
 
+_live = []
+_uid_count = {}
+
+
 def build(spec, src=None):
-  """exec the source; returns (namespace, top_class, source_text)."""
+  """exec the source; returns (namespace, top_class, source_text).  The code
+  lives in a registered module with a __file__ that linecache knows, so that
+  inspect.getsourcelines / getsourcefile work for blocks and classes."""
+  import sys
+  import types
   src = src if src is not None else source(spec)
-  _counter[0] += 1
-  fname = "<dsim-%s-%d>" % (spec["uid"], _counter[0])
-  ns = {"__name__": "dsim_generated_%s_%d" % (spec["uid"], _counter[0])}
+  # the name is a function of (uid, how often this uid was built): independent of what ran
+  # earlier in this process (file names end up in translated text and error messages)
+  k = _uid_count[spec["uid"]] = _uid_count.get(spec["uid"], 0) + 1
+  if len(_uid_count) > 64:
+    for old_uid in list(_uid_count)[:32]:
+      if old_uid != spec["uid"]:
+        del _uid_count[old_uid]
+  fname = "<dsim-%s-%d>" % (spec["uid"], k)
+  modname = "dsim_generated_%s_%d" % (spec["uid"], k)
+  mod = types.ModuleType(modname)
+  mod.__file__ = fname
+  sys.modules[modname] = mod
+  _live.append((modname, fname))
+  while len(_live) > 12:
+    old_mod, old_file = _live.pop(0)
+    sys.modules.pop(old_mod, None)
+    linecache.cache.pop(old_file, None)
+  ns = mod.__dict__
   lines = src.splitlines(True)
   linecache.cache[fname] = (len(src), None, lines, fname)
   exec(compile(src, fname, "exec"), ns)
